@@ -46,7 +46,24 @@ DenseLattice ==
   {c \in [kind : {"dense"}, c : 1..4, h : {1}, w : {1}, f : 1..4, kh : {1}, kw : {1},
           sh : {1}, sw : {1}, ph : {0}, pw : {0}, dh : {1}, dw : {1}, act : {"linear", "relu"}, bias : BOOLEAN] : TRUE}
 
-Lattice == (IF "conv" \in Kinds THEN ConvLattice ELSE {}) \cup (IF "deconv" \in Kinds THEN DeconvLattice ELSE {})
+\* Large maps and wide layers (extents that straddle 32 and 64: block sizes of tiled or chunked code paths must not show).
+\* Only where the per-coordinate finite-difference theorem is not evaluated (it is quadratic in the size).
+Big(kind, c, h, w, f, kh, kw, sh, sw, ph, pw, act, bias) ==
+  [kind |-> kind, c |-> c, h |-> h, w |-> w, f |-> f, kh |-> kh, kw |-> kw, sh |-> sh, sw |-> sw, ph |-> ph, pw |-> pw,
+   dh |-> 1, dw |-> 1, act |-> act, bias |-> bias]
+BigConfigs ==
+  IF CheckFD THEN {}
+  ELSE {c \in {Big("conv", 1, 33, 34, 2, 3, 3, 1, 1, 1, 1, "relu", FALSE),
+               Big("conv", 2, 40, 36, 1, 2, 3, 2, 1, 0, 1, "linear", FALSE),
+               Big("deconv", 1, 20, 33, 1, 2, 2, 2, 2, 0, 0, "linear", FALSE),
+               Big("deconv", 1, 33, 17, 2, 3, 3, 1, 2, 1, 2, "relu", FALSE),
+               Big("pool", 1, 34, 66, 1, 2, 2, 2, 2, 0, 0, "linear", FALSE),
+               Big("pool", 2, 35, 33, 1, 3, 2, 2, 1, 0, 0, "linear", FALSE),
+               Big("dense", 70, 1, 1, 33, 1, 1, 1, 1, 0, 0, "relu", TRUE),
+               Big("dense", 33, 1, 1, 70, 1, 1, 1, 1, 0, 0, "linear", FALSE),
+               Big("dense", 600, 1, 1, 2, 1, 1, 1, 1, 0, 0, "linear", TRUE)} : c.kind \in Kinds}
+
+Lattice == BigConfigs \cup (IF "conv" \in Kinds THEN ConvLattice ELSE {}) \cup (IF "deconv" \in Kinds THEN DeconvLattice ELSE {})
            \cup (IF "pool" \in Kinds THEN PoolLattice ELSE {}) \cup (IF "dense" \in Kinds THEN DenseLattice ELSE {})
 
 \* ---- data ---------------------------------------------------------------------
